@@ -6,7 +6,11 @@ use rust_decimal::Decimal;
 use std::cell::RefCell;
 use std::panic::{self, AssertUnwindSafe};
 use std::str::FromStr;
+#[cfg(feature = "hooks")]
 use string_calculator::verif_hooks::{self, BudgetExceeded};
+
+/// false in the build that links the crate without its `verif_hooks` feature (no step counts, no budget)
+pub const HOOKS: bool = cfg!(feature = "hooks");
 use string_calculator::Number;
 
 #[derive(Clone, Copy, PartialEq, Eq, Hash, Debug, PartialOrd, Ord)]
@@ -229,10 +233,16 @@ pub fn install_hook() {
                 s.to_string()
             } else if let Some(s) = info.payload().downcast_ref::<String>() {
                 s.clone()
-            } else if info.payload().downcast_ref::<BudgetExceeded>().is_some() {
-                "BudgetExceeded".to_string()
             } else {
-                "<non-string panic payload>".to_string()
+                #[cfg(feature = "hooks")]
+                let budget = info.payload().downcast_ref::<BudgetExceeded>().is_some();
+                #[cfg(not(feature = "hooks"))]
+                let budget = false;
+                if budget {
+                    "BudgetExceeded".to_string()
+                } else {
+                    "<non-string panic payload>".to_string()
+                }
             };
             let loc = info
                 .location()
@@ -288,7 +298,10 @@ pub fn eval_measured(ev: Ev, input: &str, ph: &Val, budget: u64) -> Measured {
     debug_assert!(ph.fits(ev));
     let s = input.to_string();
     let ph = ph.clone();
+    #[cfg(feature = "hooks")]
     verif_hooks::arm(budget);
+    #[cfg(not(feature = "hooks"))]
+    let _ = budget;
     let r = panic::catch_unwind(AssertUnwindSafe(move || -> Result<Val, ()> {
         match (ev, ph) {
             (Ev::F64, Val::F(p)) => string_calculator::eval_f64(s, p).map(Val::F).map_err(|_| ()),
@@ -303,18 +316,21 @@ pub fn eval_measured(ev: Ev, input: &str, ph: &Val, budget: u64) -> Measured {
             _ => panic!("harness bug: placeholder type does not match evaluator"),
         }
     }));
-    let loop_steps = verif_hooks::loop_steps();
-    let steps = verif_hooks::disarm();
+    #[cfg(feature = "hooks")]
+    let (loop_steps, steps) = (verif_hooks::loop_steps(), verif_hooks::disarm());
+    #[cfg(not(feature = "hooks"))]
+    let (loop_steps, steps) = (0u64, 0u64);
     let outcome = match r {
         Ok(Ok(v)) => Outcome::Ok(v),
         Ok(Err(())) => Outcome::Err,
         Err(payload) => {
+            #[cfg(feature = "hooks")]
             if let Some(b) = payload.downcast_ref::<BudgetExceeded>() {
-                Outcome::Budget(b.steps)
-            } else {
-                let (m, l) = LAST_PANIC.with(|p| p.borrow_mut().take()).unwrap_or(("?".into(), "?".into()));
-                Outcome::Panic(m, l)
+                return Measured { outcome: Outcome::Budget(b.steps), steps, loop_steps };
             }
+            let _ = &payload;
+            let (m, l) = LAST_PANIC.with(|p| p.borrow_mut().take()).unwrap_or(("?".into(), "?".into()));
+            Outcome::Panic(m, l)
         }
     };
     Measured { outcome, steps, loop_steps }
